@@ -9,6 +9,16 @@ def cmd(pid, tier):
 
 # id -> (category, engine, technique, level text, level note, design ref)
 CHECKS = {
+ "C01": ("exploration", "ENUM",
+   "bounded-exhaustive enumeration of message byte strings (request products, token strings, byte-level mutations, all short byte strings) through both transports against an independent classifier",
+   "Every distinct byte string of the stated generators (REQ product of 21 id forms x 12 methods x 11 params x 5 versions, member orders/duplicates/whitespace sub-product, all token strings of length <=5 (thorough 6) over 14 tokens, position-wise mutations of base requests, all 1- and (thorough: all) 2-byte strings, every single-byte replacement) is sent over HTTP (tower service) and over a fresh in-memory WebSocket connection followed by a sentinel call; all frames until close are collected, so 'at most one reply' is a count; replies, ids, results, invoked handlers and HTTP==WS are compared with a reference classifier written on a duplicate-preserving JSON tree.",
+   "Non-UTF-8 byte strings and objects with duplicate known members are judged on the weak clauses only (<=1 well-formed reply, keeps serving); messages outside the generators are not covered; in-memory duplex instead of TCP.",
+   "DESIGN.md §6 C01"),
+ "C02": ("exploration", "ENUM",
+   "bounded-exhaustive enumeration of batch arrays over an entry alphabet x batch configurations x transports against a per-entry reference; all frames until close collected",
+   "All arrays of length 0..4 (thorough 5) over 12 entry kinds, all arrays of length <=3 containing a subscribe call, x {Unlimited, Disabled, Limit(0), Limit(1), Limit(2)} x {HTTP, WS}; one array with exactly the expected multiset of replies, nothing outside the array (every WebSocket frame until close is read), fixed errors -32005/-32010/-32600 with no handler run, and each call entry's reply equals its reply when sent alone.",
+   "Entry kinds outside the alphabet are not covered; reply order inside the array is not demanded.",
+   "DESIGN.md §6 C02"),
  "C19": ("exploration", "ENUM",
    "bounded-exhaustive enumeration of HTTP methods x content-type strings, and of all body chunkings (differential against the single-frame request) through the real tower service",
    "10 methods x ~36k content-type values (six accepted spellings in all letter-case variants, near misses, missing, duplicated) with status and invocation log checked against the statement; 17 bodies x every split into <=3 (thorough 4) chunks x empty/blank chunk inserted at every boundary x Content-Length present/absent, each compared (status, body, handler log) with the single-frame request of the same bytes.",
